@@ -311,13 +311,44 @@ func mergeSnapshots(next, existing metadata.ClusterMetadata) metadata.ClusterMet
 		}
 		if i, ok := seen[name]; ok {
 			if have := len(next.Topics[i].Partitions); len(topic.Partitions) > have {
-				next.Topics[i].Partitions = append(next.Topics[i].Partitions, topic.Partitions[have:]...)
+				next.Topics[i].Partitions = append(next.Topics[i].Partitions, reassignToBrokers(topic.Partitions[have:], next.Brokers)...)
 			}
 			continue
 		}
+		topic.Partitions = reassignToBrokers(topic.Partitions, next.Brokers)
 		next.Topics = append(next.Topics, topic)
 	}
 	return next
+}
+
+// reassignToBrokers returns partitions carried over from an older snapshot with every
+// leader that is no longer among the published brokers (the cluster was scaled down)
+// moved onto a current broker, using the same spread as BuildClusterMetadata.
+func reassignToBrokers(partitions []protocol.MetadataPartition, brokers []protocol.MetadataBroker) []protocol.MetadataPartition {
+	if len(brokers) == 0 {
+		return partitions
+	}
+	ids := make([]int32, len(brokers))
+	known := make(map[int32]struct{}, len(brokers))
+	for i, b := range brokers {
+		ids[i] = b.NodeID
+		known[b.NodeID] = struct{}{}
+	}
+	out := make([]protocol.MetadataPartition, len(partitions))
+	copy(out, partitions)
+	for i := range out {
+		if _, ok := known[out[i].Leader]; ok {
+			continue
+		}
+		slot := int(out[i].Partition) % len(ids)
+		if slot < 0 {
+			slot += len(ids)
+		}
+		out[i].Leader = ids[slot]
+		out[i].Replicas = ids
+		out[i].ISR = ids
+	}
+	return out
 }
 
 func isRetryableEtcdError(err error) bool {
